@@ -8,7 +8,7 @@ call, condition, binding right side, assignment right side, non-last item of a b
 array element, record field, builtin argument, list-comprehension body).  The call is in tail position iff every context of
 its chain is a TAIL context.  Special functions cover what the chain grammar cannot type: scrutinee of match and of if-let,
 `!f(…)`, string concatenation, a self call inside a catch clause, a nested function's own tail call, a block function / a
-let-bound function / a match-bound name that shadows the function's name, a tail call in a function WITH catch clauses.
+let-bound function / a match-bound or if-let-bound name that shadows the function's name, a tail call in a function WITH catch clauses.
 
 Three opinions are compared per function:
   (1) the generator's own expectation (how many self calls are in tail position),
@@ -177,6 +177,21 @@ def sp_shadow_match(rng, t):
     return ("#decl enum Fn%s { Has { mb%s(int, int) -> int; k : int; }, No }\nfunc plus%s(a : int, b : int) -> int { a + b + 3 }\n" % (t, t, t) +
             "func mb%s(e : Fn%s, n : int) -> int\n{\n    let z = n * 2;\n    match e { Fn%s::Has(mb%s, k) -> mb%s(k, z); Fn%s::No -> 0 - 1; }\n}\n" % ((t,) * 6),
             [("plus%s" % t, 0), ("mb%s" % t, 1)], ["print(mb%s(Fn%s::Has(plus%s, 10), n));" % (t, t, t), "print(mb%s(Fn%s::No, n));" % (t, t)])
+
+@special("shadow_match_bind_block")
+def sp_shadow_match_block(rng, t):
+    # the same arm written as a block: the block's table leads through the guard's table -> the bound name is seen, no retagging
+    return ("#decl enum Hn%s { Has { bb%s(int, int) -> int; k : int; }, No }\nfunc minus%s(a : int, b : int) -> int { a - b }\n" % (t, t, t) +
+            "func bb%s(e : Hn%s, n : int) -> int\n{\n    let z = n * 2;\n    match e { Hn%s::Has(bb%s, k) -> { bb%s(k, z) }; Hn%s::No -> 0 - 1; }\n}\n" % ((t,) * 6),
+            [("minus%s" % t, 0), ("bb%s" % t, 0)], ["print(bb%s(Hn%s::Has(minus%s, 10), n));" % (t, t, t), "print(bb%s(Hn%s::No, n));" % (t, t)])
+
+@special("shadow_iflet_bind")
+def sp_shadow_iflet(rng, t):
+    # a name bound by `if let`: the then-branch is a BLOCK, whose own table leads (parent links) through the if-let's table:
+    # the marker's lookup does see the bound name -> not retagged
+    return ("#decl enum Gn%s { Has { ib%s(int, int) -> int; k : int; }, No }\nfunc times%s(a : int, b : int) -> int { a * b + 1 }\n" % (t, t, t) +
+            "func ib%s(e : Gn%s, n : int) -> int\n{\n    let z = n + 2;\n    if let (Gn%s::Has(ib%s, k) = e) { ib%s(k, z) } else { 0 - 1 }\n}\n" % ((t,) * 5),
+            [("times%s" % t, 0), ("ib%s" % t, 0)], ["print(ib%s(Gn%s::Has(times%s, 10), n));" % (t, t, t), "print(ib%s(Gn%s::No, n));" % (t, t)])
 
 def build_program(rng, nchain=4, nspecial=3, all_tail=False, only=None):
     """-> dict(src, funcs=[(name, line, expected)], labels, dup_names)"""
@@ -388,6 +403,8 @@ def run(rep, tier, seed, semantic=True, marks=True, constant_stack=True, nprog=N
                 else:
                     st["marks_agree"] += 1
             h.cleanup(r)
+        if marks:
+            pipe_stage(h, opc, rng.fork(), st, violation)
         # ---- semantics: implementation vs reference evaluator
         if semantic:
             pairs = [(p["id"], p["ast"], [("i", p["arg"])]) for p in progs if p["ast"] is not None]
@@ -470,6 +487,39 @@ def known_stage(rep, exe, st):
         st["known"] += 1
         if rep is not None:
             rep.finding("tail-call-under-own-catch-clauses", src_corr.replay_text("a self tail call in a function with catch clauses loses the handlers of the replaced frames", prog, [("i", 3)], det))
+
+def pipe_stage(h, opc, rng, st, violation):
+    """`|>` is outside the reference evaluator's core: the expected marks and the expected output are computed here.
+    `x |> f(y)` IS the call f(x, y): its right side keeps tail position, its left side does not."""
+    k = rng.range(1, 9)
+    n = rng.range(3, 9)
+    a = rng.range(0, 9)
+    src = ("func addk(x : int, y : int) -> int { x + y }\n"
+           "func p1(n : int, acc : int) -> int\n{\n    n <= 0 ? acc : (n - 1) |> p1(acc + %d)\n}\n"
+           "func p2(n : int, acc : int) -> int\n{\n    n <= 0 ? acc : 1 + ((n - 1) |> p2(acc + %d))\n}\n"
+           "func p3(n : int, acc : int) -> int\n{\n    n <= 0 ? acc : p3(n - 1, acc) |> addk(%d)\n}\n"
+           "func p4(n : int, acc : int) -> int\n{\n    n <= 0 ? acc : { let t = acc + %d; ((n - 1) |> p4(t)) }\n}\n"
+           "func main(n : int) -> int\n{\n    print(p1(n, %d));\n    print(p2(n, %d));\n    print(p3(n, %d));\n    print(p4(n, %d));\n    0\n}\n"
+           % (k, k, k, k, a, a, a, a))
+    exp_out = "".join("%d\r\n" % v for v in (a + n * k, a + n * k + n, a + n * k, a + n * k))
+    exp_marks = dict(p1=1, p2=0, p3=0, p4=1, addk=0)
+    import vm_corr
+    r = h.run(src=src, args=[str(n)], trace=False, timeout=60)
+    io = vm_corr.impl_outcome(r)
+    out = r["out"].decode("latin1")
+    bad = []
+    if not io["kind"].startswith("return 0") or out != exp_out:
+        bad.append("expected output %r, observed %s %r" % (exp_out, io["kind"], out))
+    per_line, total = impl_marks(r["dump"], opc)
+    for ln, l in enumerate(src.split("\n"), 1):
+        m = re.match(r"func (\w+)\(", l)
+        if m and m.group(1) in exp_marks and per_line.get(ln) != exp_marks[m.group(1)]:
+            bad.append("%s: the implementation emitted %s last call(s), the position classes say %d" % (m.group(1), per_line.get(ln), exp_marks[m.group(1)]))
+    h.cleanup(r)
+    st["pipe_programs"] = st.get("pipe_programs", 0) + 1
+    if bad:
+        st["pipe_bad"] = st.get("pipe_bad", 0) + 1
+        violation("tailpos_pipe", "# `|>`: the right side keeps tail position, the left side does not (expectations computed by the generator)\n# %s\n# run: h_vm -e <program> %d\n%s" % ("\n# ".join(bad), n, src), True)
 
 def search():
     """after a broken proof or tie: a concrete program on which the implementation is wrong, if the generator finds one"""
